@@ -148,31 +148,36 @@ Definition ratfun_model (C : list K) (ts : list pft) : option (sig * sig) :=
 Record iterm := ITerm { it_const : K; it_delay : Qc; it_C : list K; it_ts : list pft }.
 Record tres := TRes { t_c : dsig K; t_u : sig }.          (* (cresult, uresult) *)
 Definition qc_ltb (a b : Qc) : bool := match (a ?= b)%Qc with Lt => true | _ => false end.
-Definition term_model (causal : bool) (tm : iterm) : option tres :=
-  match ratfun_model (it_C tm) (it_ts tm) with
+(* delay / causality bookkeeping of term(), given (cresult, uresult) of term1 *)
+Definition term_of_pair (causal : bool) (c : K) (T : Qc) (cu : option (sig * sig)) : option tres :=
+  match cu with
   | None => None
   | Some (cres, ures) =>
-      let cres := sscale (it_const tm) cres in let ures := sscale (it_const tm) ures in
-      if qc_eqb (it_delay tm) 0 then
+      let cres := sscale c cres in let ures := sscale c ures in
+      if qc_eqb T 0 then
         if causal then Some (TRes [(0%Qc, sadd cres ures)] szero)      (* cresult += uresult*Heaviside(t) *)
         else Some (TRes [(0%Qc, cres)] ures)
-      else if qc_ltb (it_delay tm) 0 then None                         (* 'Causality violated with time advance' *)
-      else Some (TRes [(it_delay tm, sadd cres ures)] szero)           (* shift, * Heaviside(t - delay) *)
+      else if qc_ltb T 0 then None                                     (* 'Causality violated with time advance' *)
+      else Some (TRes [(T, sadd cres ures)] szero)                     (* shift, * Heaviside(t - delay) *)
   end.
-Fixpoint doit_terms (causal : bool) (F : list iterm) : option tres :=
-  match F with
+Definition term_model (causal : bool) (tm : iterm) : option tres :=
+  term_of_pair causal (it_const tm) (it_delay tm) (ratfun_model (it_C tm) (it_ts tm)).
+Fixpoint sum_terms (l : list (option tres)) : option tres :=
+  match l with
   | [] => Some (TRes [] szero)
-  | tm :: F' => match term_model causal tm, doit_terms causal F' with
-                | Some a, Some b => Some (TRes (t_c a ++ t_c b) (sadd (t_u a) (t_u b)))
-                | _, _ => None
-                end
+  | a :: l' => match a, sum_terms l' with
+               | Some a, Some b => Some (TRes (t_c a ++ t_c b) (sadd (t_u a) (t_u b)))
+               | _, _ => None
+               end
   end.
+Definition doit_terms (causal : bool) (F : list iterm) : option tres := sum_terms (map (term_model causal) F).
 Record mres := MRes { m_c : dsig K; m_u : sig; m_cond : bool }.   (* m_cond: Piecewise((result, t >= 0)) *)
 Definition is_nil {A} (l : list A) : bool := match l with [] => true | _ => false end.
 Definition make_model (causal : bool) (const : K) (r : tres) : mres :=
   MRes (dscale const (t_c r)) (sscale const (t_u r)) (negb causal && negb (is_nil (reg (t_u r)))).
-Definition doit_model (causal : bool) (const : K) (F : list iterm) : option mres :=
-  match doit_terms causal F with Some r => Some (make_model causal const r) | None => None end.
+Definition make_opt (causal : bool) (const : K) (r : option tres) : option mres :=
+  match r with Some r => Some (make_model causal const r) | None => None end.
+Definition doit_model (causal : bool) (const : K) (F : list iterm) : option mres := make_opt causal const (doit_terms causal F).
 
 (* ==== theorems ========================================================================= *)
 Definition guard_sound := forall c on o, guard c on o = true -> c = true /\ on = o.
@@ -387,7 +392,7 @@ Hypothesis E0 : E 0%Qc = 1.
 
 Theorem term_value causal s tm : wf_term s tm ->
   exists r, term_model causal tm = Some r /\ tval E s r = term_image E s tm.
-Proof. intros [Hw [Hp Hd]]. unfold term_model.
+Proof. intros [Hw [Hp Hd]]. unfold term_model, term_of_pair.
   destruct (ratfun_value s (it_C tm) (it_ts tm) Hw Hp) as [c [u [Hm [_ [_ [Hvc [Hvu _]]]]]]]. rewrite Hm.
   unfold term_image, tval.
   destruct (qc_eqb (it_delay tm) 0) eqn:Ez.
@@ -400,7 +405,7 @@ Proof. intros [Hw [Hp Hd]]. unfold term_model.
 Fixpoint image_sum (s : K) (F : list iterm) : K := match F with [] => 0 | tm :: F' => term_image E s tm + image_sum s F' end.
 Theorem doit_terms_value causal s F : (forall tm, In tm F -> wf_term s tm) ->
   exists r, doit_terms causal F = Some r /\ tval E s r = image_sum s F.
-Proof. induction F as [|tm F IH]; intros Hw; cbn [doit_terms image_sum].
+Proof. unfold doit_terms. induction F as [|tm F IH]; intros Hw; cbn [map sum_terms image_sum].
   - eexists; split; [reflexivity|]. unfold tval. cbn [t_c t_u dLval]. rewrite Lval_szero. ring.
   - destruct (term_value causal s tm (Hw tm (or_introl eq_refl))) as [a [Ha Hva]].
     destruct IH as [b [Hb' Hvb]]; [intros tm' Hin; apply Hw; right; exact Hin|].
@@ -412,7 +417,7 @@ Proof. induction F as [|tm F IH]; intros Hw; cbn [doit_terms image_sum].
 Theorem ILT_LT causal const s F : (forall tm, In tm F -> wf_term s tm) ->
   exists m, doit_model causal const F = Some m /\
     dLval E s (m_c m) + Lval s (m_u m) = const * image_sum s F.
-Proof. intros Hw. unfold doit_model. destruct (doit_terms_value causal s F Hw) as [r [Hr Hv]]. rewrite Hr.
+Proof. intros Hw. unfold doit_model, make_opt. destruct (doit_terms_value causal s F Hw) as [r [Hr Hv]]. rewrite Hr.
   eexists; split; [reflexivity|]. unfold make_model. cbn [m_c m_u]. rewrite dLval_dscale, Lval_sscale, <- Hv. unfold tval. ring. Qed.
 End WithE.
 
@@ -468,28 +473,28 @@ End WithE2.
 
 (* ---- causality bookkeeping --------------------------------------------------------- *)
 Lemma doit_terms_causal F r : doit_terms true F = Some r -> t_u r = szero.
-Proof. revert r. induction F as [|tm F IH]; intros r H; cbn [doit_terms] in H; [inversion H; reflexivity|].
-  destruct (term_model true tm) as [a|] eqn:Ea; [|discriminate]. destruct (doit_terms true F) as [b|] eqn:Eb; [|discriminate].
+Proof. unfold doit_terms. revert r. induction F as [|tm F IH]; intros r H; cbn [map sum_terms] in H; [inversion H; reflexivity|].
+  destruct (term_model true tm) as [a|] eqn:Ea; [|discriminate]. destruct (sum_terms (map (term_model true) F)) as [b|] eqn:Eb; [|discriminate].
   inversion H; subst. cbn [t_u]. rewrite (IH b eq_refl).
-  unfold term_model in Ea. destruct (ratfun_model (it_C tm) (it_ts tm)) as [[c u]|]; [|discriminate].
+  unfold term_model, term_of_pair in Ea. destruct (ratfun_model (it_C tm) (it_ts tm)) as [[c u]|]; [|discriminate].
   destruct (qc_eqb (it_delay tm) 0); [inversion Ea; reflexivity|]. destruct (qc_ltb (it_delay tm) 0); [discriminate|]. inversion Ea; reflexivity. Qed.
 (* causal requested: no  t >= 0  condition, and every regular term sits in the
    part that carries its step u(t - T): the result is zero for t < 0 *)
 Theorem causal_flag const F m : doit_model true const F = Some m ->
   m_cond m = false /\ m_u m = szero.
-Proof. unfold doit_model. destruct (doit_terms true F) as [r|] eqn:Er; [|discriminate]. intros H. inversion H; subst. clear H.
+Proof. unfold doit_model, make_opt. destruct (doit_terms true F) as [r|] eqn:Er; [|discriminate]. intros H. inversion H; subst. clear H.
   unfold make_model. cbn [m_cond m_u]. rewrite (doit_terms_causal F r Er). split; reflexivity. Qed.
 (* causality not known: the result carries the condition t >= 0 exactly when it
    has a regular part that is not already qualified by a step *)
 Theorem noncausal_flag const F m : doit_model false const F = Some m ->
   (m_cond m = true <-> reg (m_u m) <> []).
-Proof. unfold doit_model. destruct (doit_terms false F) as [r|]; [|discriminate]. intros H. inversion H; subst. clear H.
+Proof. unfold doit_model, make_opt. destruct (doit_terms false F) as [r|]; [|discriminate]. intros H. inversion H; subst. clear H.
   unfold make_model. cbn [m_cond m_u sscale reg negb andb]. destruct (reg (t_u r)) as [|[[c n] p] l]; cbn; split; intros H.
   - discriminate. - exfalso; apply H; reflexivity. - discriminate. - reflexivity. Qed.
 (* a delayed term is always treated as causal: it only contributes step-qualified components *)
 Theorem delayed_flag causal tm r : term_model causal tm = Some r -> qc_eqb (it_delay tm) 0 = false ->
   t_u r = szero /\ exists x, t_c r = [(it_delay tm, x)].
-Proof. unfold term_model. destruct (ratfun_model (it_C tm) (it_ts tm)) as [[c u]|]; [|discriminate]. intros H Hz. rewrite Hz in H.
+Proof. unfold term_model, term_of_pair. destruct (ratfun_model (it_C tm) (it_ts tm)) as [[c u]|]; [|discriminate]. intros H Hz. rewrite Hz in H.
   destruct (qc_ltb (it_delay tm) 0); [discriminate|]. inversion H; subst. cbn [t_u t_c]. split; [reflexivity | eexists; reflexivity]. Qed.
 
 (* ---- initial / final value ------------------------------------------------------------
@@ -621,7 +626,7 @@ Arguments TScale {K}. Arguments TAdd {K}. Arguments TMul {K}.
 Arguments ITerm {K}. Arguments it_const {K}. Arguments it_delay {K}. Arguments it_C {K}. Arguments it_ts {K}.
 Arguments CTerm {K}. Arguments ct_term {K}. Arguments ct_B {K}. Arguments ct_A {K}.
 Arguments MRes {K}. Arguments m_c {K}. Arguments m_u {K}. Arguments m_cond {K}.
-Arguments TRes {K}. Arguments t_c {K}. Arguments t_u {K}.
+Arguments TRes {K}. Arguments t_c {K}. Arguments t_u {K}. Arguments term_of_pair {K}. Arguments sum_terms {K}. Arguments make_opt {K}. Arguments make_model {K}.
 Arguments Branches {K}. Arguments b_simple {K}. Arguments b_repeated {K}. Arguments b_conj {K}. Arguments b_poly {K}.
 Arguments osadd {K}. Arguments smul {K}. Arguments wf_tsb {K}. Arguments keys_nodupb {K}. Arguments orders_posb {K}.
 Arguments pf_iv {K}. Arguments pf_fv {K}. Arguments cert_ok {K}. Arguments roundtrip_check {K}. Arguments roundtrip_list {K}.
